@@ -81,6 +81,28 @@ pub fn run(ctx: &Ctx) -> i32 {
     });
     let mut col = Collector::new(); let (mut dels, mut reps) = (0, 0); let mut buckets = std::collections::HashSet::new();
     for a in accs { col.merge(a.col); dels += a.deletions; reps += a.replacements; buckets.extend(a.buckets); }
+    // ---- deletion of every occurrence of a mandatory repeating sequence (the message keeps all its other fields)
+    let mut seq_dels = 0u64;
+    for (i, m) in bases.iter().enumerate() {
+        if m.seq_count.is_none() || !m.seq_array { continue; }
+        let l = m2::layout(m.mt);
+        let lo = l.nodes.iter().find_map(|n| if let m2::Node::S(s) = n { if s.array { Some(s.lo) } else { None } } else { None }).unwrap_or(0);
+        if lo == 0 { continue; }
+        let toks = m.toks();
+        let t: Vec<Tok> = toks.iter().zip(m.occs.iter()).filter(|(_, o)| !matches!(o.cont, Cont::SeqItem(_))).map(|(t, _)| t.clone()).collect();
+        if t.len() == toks.len() { continue; }
+        let tags: Vec<String> = t.iter().map(|x| x.tag.clone()).collect();
+        if m2::accepts_tags(l, &tags) { continue; }
+        seq_dels += 1;
+        let first = m.occs.iter().find(|o| matches!(o.cont, Cont::SeqItem(_))).map(|o| o.tag.clone()).unwrap_or_default();
+        match parse_err(m.mt, &t) {
+            Err(_) => {}
+            // MT110/204/210 report an empty sequence by network rule T10; the parser may accept it
+            Ok(None) => { if !["110", "204", "210"].contains(&m.mt) { col.add(format!("C09/MT{}/missing-accepted/sequence:{first}", m.mt), (i as u64) * 10_000 + 9_999, || "accepted although the mandatory repeating sequence is missing altogether".into(), || json!({"mt": m.mt, "deleted": format!("every occurrence of the sequence starting with {first}"), "block4": tok::render_lf(&t)})); } }
+            Ok(Some(e)) => { buckets.insert(format!("{}:del-seq", m.mt)); let txt = format!("{e}").to_lowercase(); let names_sequence = (txt.contains("sequence") || txt.contains("at least one")) && txt.contains(&m.mt.to_lowercase()); if !names_missing(&e, &first, m.mt) && !names_sequence { col.add(format!("C09/MT{}/missing-wrong-culprit/sequence:{first}", m.mt), (i as u64) * 10_000 + 9_999, || format!("{e}"), || json!({"mt": m.mt, "block4": tok::render_lf(&t)})); } }
+        }
+    }
+    ev.set("whole_sequence_deletions", json!(seq_dels));
     ev.set("evaluations", json!(dels + reps)); ev.set("deletions", json!(dels)); ev.set("replacements", json!(reps)); ev.set("bases", json!(n));
     ev.set("distinct_nontrivial", json!(buckets.len()));
     ev.set("rule", json!("for every accepted model-generated message (all 30 types, within d deviations of the minimal and maximal message): every mandatory occurrence deleted (judged when the remaining tag sequence is outside the layout language), every occurrence's content replaced by each ASCII candidate content its own parser rejects (empty, over-long, bad leading character); distinct = (type, element, kind of damage)"));
